@@ -16,7 +16,7 @@ func (m *Machine) now() Value {
 // time.Time is modelled as the real struct {wall, ext, loc} with wall = 0, loc = nil and ext = a
 // (symbolic) number of nanoseconds on the monotone clock.
 func timeVal(ns Value) Value { return Struct{int64(0), ns, Ptr(nil)} }
-func timeNs(v Value) Value  { return v.(Struct)[1] }
+func timeNs(v Value) Value   { return v.(Struct)[1] }
 
 func init() {
 	R("time.Now", func(m *Machine, a []Value) Value { return timeVal(m.now()) })
